@@ -24,6 +24,9 @@ fn main() {
     let id = std::env::args().nth(1).unwrap_or_default();
     let r = std::panic::catch_unwind(|| dispatch(&id));
     if r.is_err() {
+        if mc::panics::escaped_subject_panic().is_some() {
+            mc::panics::report_escaped_subject_panic(&id);
+        }
         println!("MACHINERY-ERROR property={} the harness itself panicked (see stderr)", id);
         std::process::exit(2);
     }
